@@ -415,6 +415,15 @@ func checkCoherence(t *rapid.T, u *skUT, cl *caseLog) string {
 			if !withinAlpha(c.m, alpha, gmax, tmax) {
 				return fmt.Sprintf("GetMaxValue %v is not within alpha=%v of the true maximum %v", gmax, alpha, tmax)
 			}
+		} else {
+			// the exact variant reports the extremes of the values as they were given
+			rmin, rmax := math.Inf(1), math.Inf(-1)
+			for _, x := range k.vals {
+				rmin, rmax = math.Min(rmin, x.V), math.Max(rmax, x.V)
+			}
+			if gmin != rmin || gmax != rmax {
+				return fmt.Sprintf("exact variant: GetMinValue/GetMaxValue = (%v,%v), the values it holds span [%v,%v]", gmin, gmax, rmin, rmax)
+			}
 		}
 	}
 	// monotone quantiles inside [min,max]; batch == singles
